@@ -119,4 +119,18 @@ CHECKS = {
   'note': TB,
   'technique': 'Coq any-schedule theorems (cache publish protocol, pooled-context discipline from translator analysis) + concurrent differential harness in race and !race builds',
  },
+ 'C12': {
+  'text': ("Proof (Coq): memory as regions (caller input buffers, pooled encoder buffers, slices handed to the caller); for EVERY history of Marshal*/Unmarshal* "
+           "calls of any sizes interleaved with the caller overwriting its inputs and the slices it holds, everything the caller holds reads as the caller last saw or "
+           "wrote it, and each Marshal result is what that call produced. The two premises -- no Marshal path returns memory that may alias a pooled context, and every "
+           "unmarshal* decodes from a fresh make+copy of the input -- are read from encode.go/decode.go by the translator on every run (conservative alias analysis); "
+           "each premise is shown necessary by a refutation witness. The translator also checks that no UnmarshalJSON/UnmarshalText call site is handed a slice of the "
+           "stream window. Observed: 5 decode entry points on documents with strings, []byte, RawMessage, Number, retaining Unmarshaler/TextUnmarshaler, interface{}, maps; "
+           "input slices with 0..5000 bytes of spare capacity (sentinel-filled) must be bit-identical afterwards; values are snapshotted, the input is overwritten, "
+           "pooled buffers are churned with other sizes, snapshots compared; Decoder streams of 2..13 documents in pieces of 1..2^20 bytes keep every earlier value; "
+           "6 Marshal entry points over sizes 0..70000 with all earlier results re-checked after every call, Encoder/Compact/Indent churn and caller overwrites "
+           "(including spare capacity). Partial: the region model abstracts the decoders' sub-slicing; the Decoder's window arithmetic is observed, not proved."),
+  'note': TB,
+  'technique': 'Coq history theorem over a region memory model with premises from translator alias analysis + snapshot/overwrite/churn harness',
+ },
 }
